@@ -33,6 +33,8 @@ pub struct Seg {
     pub off: u64,
     pub vaddr: u64,
     pub filesz: u64,
+    /// `p_memsz` (`None`: equal to `p_filesz`)
+    pub memsz: Option<u64>,
 }
 
 pub const STT_NOTYPE: u8 = 0;
@@ -62,6 +64,10 @@ pub struct ElfSpec {
     /// (initial address, length) of the FDEs of `.eh_frame`; no section is written when empty
     pub fdes: Vec<(u64, u64)>,
     pub build_id: Vec<u8>,
+    /// `Some(sh_addr)`: `.eh_frame` is written the way compilers write it — `zR` CIEs (two of them) with
+    /// `DW_EH_PE_pcrel | DW_EH_PE_sdata4` pointers, the section at address `sh_addr`; the FDE addresses must lie
+    /// within 2 GiB of it and the lengths below 2^31 (see `pcrel_representable`)
+    pub eh_pcrel: Option<u64>,
 }
 
 struct SecHdr {
@@ -132,6 +138,48 @@ fn eh_frame(fdes: &[(u64, u64)]) -> Vec<u8> {
     v
 }
 
+/// can every FDE be written with pc-relative 4-byte pointers when the section sits at `sh_addr`?
+pub fn pcrel_representable(fdes: &[(u64, u64)], sh_addr: u64) -> bool {
+    fdes.iter().all(|&(initial, len)| {
+        let d = initial.wrapping_sub(sh_addr) as i64;
+        d.abs() < 0x7000_0000 && len < 0x8000_0000
+    })
+}
+
+fn eh_frame_pcrel(fdes: &[(u64, u64)], sh_addr: u64) -> Vec<u8> {
+    let mut v = Vec::new();
+    let cie = |v: &mut Vec<u8>| -> u32 {
+        let at = v.len() as u32;
+        w32(v, 16); // length
+        w32(v, 0); // CIE id
+        v.push(1); // version
+        v.extend_from_slice(b"zR\0");
+        v.push(1); // code alignment
+        v.push(0x78); // data alignment -8
+        v.push(16); // return address register
+        v.push(1); // augmentation data length
+        v.push(0x1b); // DW_EH_PE_pcrel | DW_EH_PE_sdata4
+        v.extend_from_slice(&[0, 0, 0]); // padding (DW_CFA_nop)
+        at
+    };
+    let mut cur_cie = cie(&mut v);
+    for (k, &(initial, len)) in fdes.iter().enumerate() {
+        if k > 0 && k == fdes.len() / 2 {
+            cur_cie = cie(&mut v); // a second CIE in the middle: the FDEs after it refer to it
+        }
+        w32(&mut v, 16); // length
+        let field = v.len() as u32;
+        w32(&mut v, field - cur_cie); // CIE pointer, relative to this field
+        let here = sh_addr.wrapping_add(v.len() as u64);
+        w32(&mut v, initial.wrapping_sub(here) as u32);
+        w32(&mut v, len as u32);
+        v.push(0); // augmentation data length
+        v.extend_from_slice(&[0, 0, 0]);
+    }
+    w32(&mut v, 0);
+    v
+}
+
 pub fn write_elf(spec: &ElfSpec) -> Vec<u8> {
     let mut hdrs: Vec<SecHdr> = Vec::new();
     let mut n_text = 0;
@@ -177,7 +225,10 @@ pub fn write_elf(spec: &ElfSpec) -> Vec<u8> {
         add(&mut hdrs, ".dynstr", 3, 2, 0, dynstr, 0, 0, 1, 0);
     }
     if !spec.fdes.is_empty() {
-        add(&mut hdrs, ".eh_frame", 1, 2, 0, eh_frame(&spec.fdes), 0, 0, 8, 0);
+        match spec.eh_pcrel {
+            Some(sh_addr) if pcrel_representable(&spec.fdes, sh_addr) => add(&mut hdrs, ".eh_frame", 1, 2, sh_addr, eh_frame_pcrel(&spec.fdes, sh_addr), 0, 0, 8, 0),
+            _ => add(&mut hdrs, ".eh_frame", 1, 2, 0, eh_frame(&spec.fdes), 0, 0, 8, 0),
+        }
     }
     // .shstrtab
     let mut shstr = vec![0u8];
@@ -244,7 +295,7 @@ pub fn write_elf(spec: &ElfSpec) -> Vec<u8> {
         w64(&mut ph, s.vaddr);
         w64(&mut ph, s.vaddr);
         w64(&mut ph, s.filesz);
-        w64(&mut ph, s.filesz);
+        w64(&mut ph, s.memsz.unwrap_or(s.filesz));
         w64(&mut ph, 0x1000);
     }
     out[64..64 + ph.len()].copy_from_slice(&ph);
